@@ -16,26 +16,30 @@ META = dict(
                 '(1) the four indexes stay mirror-consistent (Inv) and the model answers equal those of an abstract LRU cache; '
                 '(2) refines_spec: with no limit and no allocation failure every fetch answer and the stats after every operation equal those of '
                 'the specification map key -> latest store (rise t deletes every binding whose trigger list, own key included, contains t; hit iff '
-                'bound and now <= deadline), so a live entry is always found; (3) refines_spec_limited: for every limit and every fault except a '
-                'store whose value copy fails, every fetch misses or returns exactly the specification answer and every counted entry is a binding '
-                'of the specification map (nothing stale is ever returned or kept); the excluded fault is proved to be a real counterexample '
-                '(known finding stale-after-failed-store, replayed on the implementation); (4) the clauses of the property text over explicit '
-                'histories: hit = value, triggers, deadline of the latest store; miss after remove / clear / rise of any attached trigger / '
-                'deadline passed / never stored; (5) every interface operation is one back-end operation, a recorder returns exactly the names '
+                'bound and now <= deadline), so a live entry is always found; the same exact agreement for every limited cache whose limit is at '
+                'least the number of distinct keys the history stores under (refines_spec_within_limit); (3) refines_spec_limited: for every limit, pressure pattern and '
+                'allocator fault, every fetch misses or returns exactly the specification answer and every counted entry is a binding '
+                'of the specification map (nothing stale is ever returned or kept); in the specification a store that cannot be carried out '
+                '(value cannot be copied into the shared segment - the catch block calls remove(key) -, size test, allocator failure while linking) '
+                'leaves the key unbound; (4) the clauses of the property text over explicit '
+                'histories, without side conditions on the allocator: hit = value, triggers, deadline of the latest store; miss after remove / clear / '
+                'rise of any attached trigger / deadline passed / never stored / a store under the key that could not be carried out; (5) every interface operation is one back-end operation, a recorder returns exactly the names '
                 'added between attach and detach under any nesting, the page set holds everything added or inherited since the last reset, a '
                 'stored page or frame misses after raising any of its recorded triggers; (6) the model of private/hash_map.h (intrusive list + '
                 'bucket ranges, growth rehash, erase repairing range ends, both clear branches) refines a finite map for every operation sequence, '
-                'and string_hash::update_state as translated from the current header equals the model hash (Link.v). '
+                'and string_hash::update_state as translated from the current header equals the model hash (Link.v); infty and deadtime() as '
+                'translated from the current src/cache_interface.cpp equal the interface model (Link.v). '
                 'The model is tied to the current source by running the extracted model and the real code on the same operation sequences: '
                 'exhaustive short sequences over a tiny alphabet, long random ones, limits 0,1,2,small,large, both back ends, and sequences '
                 'through cache_interface objects of a service and of request contexts.'),
-    level_note=('Trusted: Coq kernel; ExtrOcamlBasic extraction; the hand-written models (only string_hash::update_state is in the loop-free '
-                'integer fragment cxx2v translates and is linked; containers, strings, time() are tied by correspondence, including the constant '
-                'infty of deadtime() which is pinned by a boundary case); the cache model uses a finite map for primary/triggers - the hash_map '
+    level_note=('Trusted: Coq kernel; ExtrOcamlBasic extraction; the hand-written models (string_hash::update_state and infty/deadtime() of '
+                'cache_interface.cpp are in the loop-free integer fragment cxx2v translates and are linked - after a textual lift into small TUs, '
+                'see docs/C07.md; containers, strings, time() are tied by correspondence); the cache model uses a finite map for primary/triggers - the hash_map '
                 'model is proved to refine a finite map and is tied to the header separately, the two are composed through that interface, not '
                 'as one Coq term; std::multimap/std::list/std::set semantics; locks are not modelled '
                 '(single-threaded semantics; concurrency is C09). Allocation failures of the shared-memory variant are oracle arguments of the '
-                'model (covered by the soundness theorems; correspondence covers only the value-larger-than-the-segment failure).'),
+                'model (all covered by the theorems; correspondence covers the value-larger-than-the-segment failure deterministically, the '
+                'memory-pressure runs are judged by the oracle alone).'),
 )
 
 import re
@@ -65,7 +69,40 @@ def _hash_tu():
     return out
 
 
+def _iface_tu():
+    """src/cache_interface.cpp: the constant `infty` is a ?: over sizeof(time_t) (the constant evaluator of cxx2v takes literals only)
+    and `deadtime()` reads the clock through time() and throws; both are lifted textually from the CURRENT source into a tiny TU
+    (regenerated on every run): the initialiser of infty becomes the body of c07_infty() with sizeof(time_t) replaced by 8 (the TU
+    static_asserts that this is what the compiler sees), the body of deadtime() becomes c07_deadtime(sec, now) with `time(&tmp);`
+    replaced by `tmp=now;`, the throw statement by `return -1;`, the type name time_t by long long.  If the source no longer has
+    that shape the function is left out and the translator reports a broken tie."""
+    d = os.path.join(vlib.WORK, 'C07')
+    os.makedirs(d, exist_ok=True)
+    out = os.path.join(d, 'C07_iface_tu.cpp')
+    try:
+        src = open(os.path.join(vlib.REPO, 'src', 'cache_interface.cpp')).read()
+    except OSError:
+        src = ''
+    txt = ('// generated by checks/C07.py from src/cache_interface.cpp (infty, deadtime) -- do not edit\n#include <time.h>\n'
+           'static_assert(sizeof(time_t)==8 && sizeof(long long)==8,"LP64 time_t");\n')
+    m1 = re.search(r'const\s+time_t\s+infty\s*=\s*(.*?);', src, re.S)
+    if m1 and m1.group(1).count('sizeof(time_t)') == 1:
+        txt += 'long long c07_infty()\n{\n\treturn %s;\n}\n' % m1.group(1).replace('sizeof(time_t)', '8')
+    m2 = re.search(r'time_t\s+deadtime\s*\(\s*int\s+sec\s*\)\s*\{(.*?)\n\t\}', src, re.S)
+    if m2:
+        body = m2.group(1)
+        throws = re.findall(r'throw\s+cppcms_error\s*\([^;]*\)\s*;', body)
+        if body.count('time(&tmp);') == 1 and len(throws) == 1 and len(re.findall(r'\binfty\b', body)) == 1:
+            body = body.replace('time(&tmp);', 'tmp=now;').replace(throws[0], 'return -1;')
+            body = re.sub(r'\binfty\b', 'c07_infty()', body).replace('time_t', 'long long')
+            txt += 'long long c07_deadtime(int sec,long long now)\n{' + body + '\n}\n'
+    vlib.write_if_changed(out, txt)
+    return out
+
+
 GEN = {
+    # infty and deadtime() of src/cache_interface.cpp (the deadline the interface hands to the back end)
+    'Gen_C07_iface': dict(src=_iface_tu(), incs=[], functions=[('c07_infty', 'g_c07_infty'), ('c07_deadtime', 'g_c07_deadtime')]),
     # string_hash::update_state and string_hash::initial_state of private/hash_map.h (the hash behind mem_cache::primary / triggers)
     'Gen_C07_hash': dict(src=_hash_tu(), incs=[], consts=[('c07_initial_state', 'g_c07_hash_initial')],
                          functions=[('c07_update_state', 'g_c07_hash_update')]),
@@ -127,8 +164,8 @@ def value_len(tok):
 
 
 def oversized(backend, vtok):
-    """input class of the known finding: process_shared back end and a value larger than the whole shared segment
-    (copying it into the segment throws std::bad_alloc in the first try block of mem_cache::store)"""
+    """process_shared back end and a value larger than the whole shared segment: copying it into the segment throws
+    std::bad_alloc in the first try block of mem_cache::store, whose catch block removes the key and returns"""
     return backend.startswith('p') and value_len(vtok) > int(backend[1:]) * 1024
 
 
@@ -259,39 +296,53 @@ def oracle_sound(case, out, pressure=False):
         return ('bad-output', 'answer has %d tokens for %d ops: %s' % (len(toks), len(ops), out[:200]))
     if 'FETCH-FORMS-DIFFER' in out:
         return ('fetch-forms-differ', 'fetch(key,&a,&tags,&timeout,&gen), fetch(key,a,&tags) and fetch(key,0,0,0,0) disagree')
-    exact = (limit == 0 and not pressure)
+    # "no size limit in play": limit 0, or a limit that is at least the number of distinct keys the history stores under
+    # (then nothing can ever be evicted - theorem refines_spec_within_limit)
+    nkeys = len(set(o.split(':')[1] for o in ops if o.startswith('S:')))
+    exact = (not pressure) and (limit == 0 or limit >= nkeys)
     sp = Spec(0, evict=False)
     sp.now = t0
-    auto_gens = {}
-    stale = {}           # key -> superseded entries that a store whose copy could not be allocated may have left behind (at most one is present)
+    # diagnostics only: key -> entries superseded by a later store call under that key that could not be carried out (value larger
+    # than the shared segment) or, under memory pressure, may not have been.  They are NOT tolerated: a hit equal to one of
+    # them is the regression of /repo commit 6978548 and is reported under its own key.
+    stale = {}
+    gen_unknown = False
     for i, (o, a) in enumerate(zip(ops, toks)):
         f = o.split(':')
         tag = f[0]
         af = a.split(':')
-        continue_store = False
         if tag == 'S':
             ts = [] if f[3] == '.' else f[3].split('+')
             g = None if f[5] == '-' else int(f[5])
             if oversized(backend, f[2]):
-                # this store cannot be carried out.  Property: the key must not be served from older data afterwards.
-                # (no generation number is consumed: nothing reaches the cache)
+                # this store cannot be carried out.  Property: the key must not be served from older data afterwards:
+                # it is absent (and not counted) until the next store.  No generation number is consumed.
                 if f[1] in sp.m:
                     stale.setdefault(f[1], []).append(sp.m[f[1]])
                     sp.remove(f[1])
+            elif oversized(backend, f[1]) or any(oversized(backend, t) for t in ts):
+                # the key or a trigger name cannot be copied into the shared segment: the store cannot be carried out either.
+                # Property: the key is absent afterwards.  What happens to the OTHER entries is not the property's business
+                # (the implementation drops the whole cache - that is pinned by the model correspondence, not here): from
+                # now on misses are always acceptable, hits must still be exactly the latest store, and the value of the
+                # generation counter is unknown.
+                if f[1] in sp.m:
+                    stale.setdefault(f[1], []).append(sp.m[f[1]])
+                    sp.remove(f[1])
+                exact = False
+                gen_unknown = True
             else:
-                if pressure and backend.startswith('p'):
-                    # under memory pressure the copy of ANY value may fail (same known finding): the entry that this store
-                    # supersedes may be left behind; remember it (an older left-over stays the candidate if there is no newer one)
-                    if f[1] in sp.m:
-                        pe = sp.m[f[1]]
-                        stale.setdefault(f[1], []).append((pe[0], pe[1], pe[2], None))
-                else:
+                if pressure and backend.startswith('p') and f[1] in sp.m:
+                    # under memory pressure the copy of ANY value may fail: then the key must be absent (a miss is always
+                    # allowed in this mode), never the superseded entry
+                    pe = sp.m[f[1]]
+                    stale.setdefault(f[1], []).append((pe[0], pe[1], pe[2], None))
+                elif not pressure:
                     stale.pop(f[1], None)
-                continue_store = True
                 sp.store(f[1], valtok_of(f[2]), ts, int(f[4]), g)
-            if continue_store and pressure and g is None:
-                e = sp.m[f[1]]
-                sp.m[f[1]] = (e[0], e[1], e[2], None)
+                if (pressure or gen_unknown) and g is None:
+                    e = sp.m[f[1]]
+                    sp.m[f[1]] = (e[0], e[1], e[2], None)
         elif tag == 'F':
             e = sp.m.get(f[1])
             live = e is not None and e[2] >= sp.now
@@ -306,7 +357,8 @@ def oracle_sound(case, out, pressure=False):
                             and int(af[3]) == ent[2] and (ent[3] is None or int(af[4]) == ent[3]))
                 if not same(e) and any(same(x) for x in ses):
                     return ('stale-after-failed-store', 'a later store under this key could not be allocated (value larger than the shared '
-                            'segment, or the segment is full) and was dropped silently, but the superseded entry is still served: ' + where)
+                            'segment, or the segment is full) but the entry it supersedes is still served (store must remove the key when '
+                            'the value cannot be copied): ' + where)
                 if e is None:
                     return ('hit-after-invalidation', 'fetch hit for a key that was never stored, or was removed / cleared / had a trigger '
                             'raised since its last store: ' + where)
@@ -325,7 +377,8 @@ def oracle_sound(case, out, pressure=False):
                     pass
             elif af[0] == 'm':
                 if exact and live:
-                    return ('miss-of-live-entry', 'no limit is in play but a live entry was not found: op %d (%s), stored %s' % (i, o, e[:3]))
+                    return ('miss-of-live-entry', 'no limit is in play (limit %d, %d distinct keys) but a live entry was not found: op %d (%s), stored %s'
+                            % (limit, nkeys, i, o, e[:3]))
             else:
                 return ('bad-output', 'unexpected token %s for fetch' % a[:100])
         elif tag == 'R':
@@ -347,14 +400,7 @@ def oracle_sound(case, out, pressure=False):
             ks, tsn = [int(x) for x in st.split('/')]
         except ValueError:
             return ('bad-output', 'no stats in token ' + a[:100])
-        if stale:
-            # entries left behind by the known finding may or may not be counted; only the bounds are checked
-            smax = len(sp.m) + len(stale)
-            tmax = sp.trig_count() + sum(max(len(x[1]) for x in l) for l in stale.values())
-            if ks > smax or tsn > tmax or (exact and (ks < len(sp.m) or tsn < sp.trig_count())):
-                return ('stats-wrong', 'stats after op %d (%s) are %s, history implies between %d/%d and %d/%d'
-                        % (i, o[:80], st, len(sp.m), sp.trig_count(), smax, tmax))
-        elif exact:
+        if exact:
             if ks != len(sp.m) or tsn != sp.trig_count():
                 return ('stats-wrong', 'stats after op %d (%s) are %s, history implies %d/%d' % (i, o[:80], st, len(sp.m), sp.trig_count()))
         else:
@@ -395,6 +441,10 @@ def oracle_ifc(case, out):
     page = set()
     recs = []
     req = dict(gz=False, finished=False, copying=False, pgz=False)
+    # no size limit in play: limit 0 or at least the number of distinct cache keys the history can store under
+    # (frames + both compression variants of every page key)
+    nolimit = limit == 0 or limit >= (len(set(o.split(':')[1] for o in ops if o.startswith('S:')))
+                                      + 2 * len(set(o.split(':')[1] for o in ops if o.startswith('P:'))))
 
     def add(t):
         page.add(t)
@@ -417,7 +467,12 @@ def oracle_ifc(case, out):
                 for t in ts:
                     add(t)
                 add(f[1])
-            sp.store(f[1], valtok_of(f[2]), ts, INFTY if secs < 0 else sp.now + secs, None)
+            if oversized(backend, f[2]):
+                # the frame cannot be copied into the shared segment: its triggers were recorded all the same, the key
+                # must not be served from older data afterwards
+                sp.remove(f[1])
+            else:
+                sp.store(f[1], valtok_of(f[2]), ts, INFTY if secs < 0 else sp.now + secs, None)
         elif tag == 'P':
             if req['finished']:
                 if body != 'skip':
@@ -456,8 +511,8 @@ def oracle_ifc(case, out):
                     if tag == 'G':
                         req['finished'] = True
                 elif body == 'm':
-                    if live and limit == 0:
-                        return ('miss-of-live-entry', what + ' missed a live entry with no limit: ' + where)
+                    if live and nolimit:
+                        return ('miss-of-live-entry', what + ' missed a live entry with no limit in play: ' + where)
                     if tag == 'G':
                         req['copying'] = True
                 else:
@@ -491,7 +546,7 @@ def oracle_ifc(case, out):
             ks, tsn = [int(x) for x in st.split('/')]
         except ValueError:
             return ('bad-output', 'no stats in token ' + a[:100])
-        if limit == 0:
+        if nolimit:
             if ks != len(sp.m) or tsn != sp.trig_count():
                 return ('stats-wrong', 'stats after op %d (%s) are %s, history implies %d/%d' % (i, o[:80], st, len(sp.m), sp.trig_count()))
         elif ks > len(sp.m) or tsn > sp.trig_count() or ks > limit:
@@ -585,8 +640,9 @@ def hm_cases(rng, n):
 KA, KB, KX = b'a', b'b', b'x'
 
 
-def small_alphabet(full):
-    """tiny op alphabet for exhaustive enumeration: 2 keys, triggers drawn from {other key, x}, deadlines T0-1, T0, T0+1"""
+def small_alphabet(full, big=None):
+    """tiny op alphabet for exhaustive enumeration: 2 keys, triggers drawn from {other key, x}, deadlines T0-1, T0, T0+1;
+    big = a value token that cannot be copied into the shared segment (process back end): a store of it under either key"""
     ops = []
     deadlines = [T0 - 1, T0, T0 + 1] if full else [T0, T0 + 1]
     for k, other in ((KA, KB), (KB, KA)):
@@ -597,6 +653,8 @@ def small_alphabet(full):
     ops += [F(KA), F(KB), R(KA), R(KX), D(KA), 'C', 'TICK']
     if full:
         ops += [R(KB), D(KB)]
+    if big:
+        ops += [S(KA, big, [KX], T0 + 1), S(KB, big, [], T0 + 1)]
     return ops
 
 
@@ -613,7 +671,7 @@ def expand_ticks(seq):
 
 
 def exhaustive_cases(backend, limits, length, full):
-    ops = small_alphabet(full)
+    ops = small_alphabet(full, '#%dx33' % (int(backend[1:]) * 1024 + 1) if backend.startswith('p') else None)
     cases = []
     for seq in itertools.product(ops, repeat=length):
         # the last op of a sequence is only informative when it is a fetch (every prefix is observed through stats anyway)
@@ -625,7 +683,7 @@ def exhaustive_cases(backend, limits, length, full):
     return cases
 
 
-def random_seq(rng, nkeys, ntrigs, length, limit, big_values=False, vsz=None):
+def random_seq(rng, nkeys, ntrigs, length, limit, big_values=False, vsz=None, oversize=0):
     keys = [b'k%d' % i for i in range(nkeys)]
     if rng.random() < 0.2:
         keys[0] = b''
@@ -651,12 +709,25 @@ def random_seq(rng, nkeys, ntrigs, length, limit, big_values=False, vsz=None):
             g = None
             if rng.random() < 0.15:
                 g = rng.choice([0, 1, 2, 7, 2 ** 32, 2 ** 64 - 1, rng.randrange(2 ** 64)])
-            if big_values:
+            if oversize and rng.random() < 0.06:
+                # cannot be copied into the shared segment: the store must leave the key absent
+                v = '#%dx%s' % (oversize + rng.choice([1, 2, 4096, 88000]), hx(bytes([rng.randrange(256)])))
+            elif big_values:
                 v = '#%dx%s' % (rng.choice(vsz), hx(bytes([rng.randrange(256)]) + k))
             else:
                 ln = rng.choice([0, 1, 2, 3, 8, 31, 32, 33, 100])
                 v = '#%dx%s' % (ln, hx(bytes([rng.randrange(256)]))) if ln > 3 else bytes(rng.randrange(256) for _ in range(ln))
-            ops.append(S(k, v, ts, d, g))
+            st = S(k, v, ts, d, g)
+            if oversize and rng.random() < 0.04:
+                # a key or a trigger name that cannot be copied into the shared segment: bad_alloc inside the second try
+                # block of store (before resp. after generation++) -> nl_clear
+                sf = st.split(':')
+                if rng.random() < 0.5:
+                    sf[1] = '#%dx%s' % (oversize + 1, hx(b'K'))
+                else:
+                    sf[3] = '+'.join(([] if sf[3] == '.' else sf[3].split('+')) + ['#%dx%s' % (oversize + 1, hx(b'T'))])
+                st = ':'.join(sf)
+            ops.append(st)
         elif r < pstore + 0.3:
             ops.append(F(rng.choice(keys)))
         elif r < pstore + 0.38:
@@ -702,12 +773,22 @@ def aimed_cases(backends, limits):
                 cases.append('seq %s %d %d %s' % (be, lim, T0, ' '.join(s)))
             if be.startswith('p'):
                 # a value that cannot be copied into the shared segment (std::bad_alloc in the first try block of store):
-                # the key must not be served from the superseded entry afterwards  [known finding stale-after-failed-store]
+                # the key must not be served from the superseded entry afterwards (the catch block removes the key;
+                # regression of /repo commit 6978548 = oracle key stale-after-failed-store)
                 big = '#%dx32' % (int(be[1:]) * 1024 + 88000)
                 cases.append('seq %s %d %d %s' % (be, lim, T0, ' '.join(
                     [S(a, b'1', [x], T0 + 5), F(a), S(a, big, [], T0 + 5), F(a), S(b, b'2', [x], T0 + 5), F(b), R(x), F(a), F(b)])))
                 cases.append('seq %s %d %d %s' % (be, lim, T0, ' '.join(
                     [S(a, big, [x], T0 + 5), F(a), S(a, b'1', [], T0 + 5), F(a), S(a, big, [], T0 + 5), D(a), F(a)])))
+                # a key / a trigger name that cannot be copied: std::bad_alloc inside the second try block -> nl_clear; the key
+                # copy fails before generation++ (the next automatic generation is unchanged), the trigger copy after it
+                seg = int(be[1:]) * 1024
+                bigk = '#%dx4b' % (seg + 1)
+                bigt = '#%dx54' % (seg + 1)
+                cases.append('seq %s %d %d %s' % (be, lim, T0, ' '.join(
+                    [S(a, b'1', [x], T0 + 5), S(b, b'2', [], T0 + 5), 'S:%s:33:.:%d:-' % (bigk, T0 + 5), F(a), F(b), 'F:' + bigk,
+                     S(a, b'4', [], T0 + 5), F(a), 'S:%s:35:%s+%s:%d:-' % (hx(b), hx(x), bigt, T0 + 5), F(a), F(b), 'R:' + bigt, 'D:' + bigk,
+                     S(a, b'6', [], T0 + 5), F(a), 'S:%s:37:%s:%d:9' % (hx(a), bigt, T0 + 5), F(a), S(b, b'8', [], T0 + 5), F(b)])))
             # > 2*limit inserts (forces hash_map rehash while trigger lists hold iterators), then rise of a shared trigger
             n = max(8, 3 * lim if lim < 200 else 8)
             seq = []
@@ -744,6 +825,14 @@ def ifc_cases(rng, n, backends, limits):
                    'N:0', 'A:' + hx(b't3'), 'X', 'G:' + hx(b'p1'), 'P:%s:%s:-1' % (hx(b'p1'), hx(b'q')), 'R:' + hx(b't3'), 'N:0', 'G:' + hx(b'p1'),
                    'R:' + hx(b'p1'), 'N:0', 'G:' + hx(b'p1')]
             cases.append('ifp %s %d %d %s' % (be, lim, T0, ' '.join(seq)))
+            if be.startswith('p'):
+                # a frame that cannot be copied into the shared segment, stored inside a recorder over a cached older version:
+                # the recorder still sees its key and trigger, the old version is gone, a page built from it keeps its triggers
+                big = '#%dx46' % (int(be[1:]) * 1024 + 1)
+                seq = [Sf(b'f0', b'old', [b't0'], 10, 1), 'F:%s:1' % hx(b'f0'), '(', 'S:%s:%s:%s:10:0' % (hx(b'f0'), big, hx(b't1')), ')',
+                       'F:%s:0' % hx(b'f0'), Sf(b'f1', b'y', [b'f0'], 10, 1), 'R:' + hx(b'f0'), 'F:%s:1' % hx(b'f1'),
+                       Sf(b'f0', b'new', [], 10, 0), 'F:%s:0' % hx(b'f0')]
+                cases.append('ifc %s %d %d %s' % (be, lim, T0, ' '.join(seq)))
             # timeout < 0 means the constant infty = max time_t - one day: alive at that very second, expired one second later
             seq = [Sf(b'f0', b'x', [], -1, 0), Sf(b'f1', b'y', [], 0, 0), 'T:%d' % (T0 + 1), 'F:%s:0' % hx(b'f0'), 'F:%s:0' % hx(b'f1'),
                    'T:%d' % INFTY, 'F:%s:0' % hx(b'f0'), 'T:%d' % (INFTY + 1), 'F:%s:0' % hx(b'f0')]
@@ -764,6 +853,11 @@ def ifc_cases(rng, n, backends, limits):
             r = rng.random()
             if r < 0.22:
                 nt = rng.choice([0, 1, 1, 2])
+                if be.startswith('p') and rng.random() < 0.12:
+                    # a frame larger than the shared segment
+                    seq.append('S:%s:#%dx%02x:%s:%d:%d' % (hx(rng.choice(keys)), int(be[1:]) * 1024 + rng.choice([1, 5000]), rng.randrange(97, 123),
+                                                          trig_tok(set(rng.choice(trigs) for _ in range(nt))), rng.choice([-1, 1, 10]), rng.random() < 0.2))
+                    continue
                 seq.append(Sf(rng.choice(keys), bytes([rng.randrange(97, 123)]), set(rng.choice(trigs) for _ in range(nt)),
                               rng.choice([-1, 0, 1, 2, 10]), rng.random() < 0.2))
             elif r < 0.40:
@@ -795,14 +889,21 @@ def ifc_cases(rng, n, backends, limits):
     return cases
 
 
-def ifc_exhaustive(length):
+def ifc_exhaustive(length, backend='t'):
     """all interface sequences of a fixed length over a tiny alphabet: one frame with one trigger stored with/without notriggers,
     fetched with/without notriggers, an explicit trigger, rise of the frame trigger, recorder open/close, reset; closed by
-    detaching every recorder still open"""
+    detaching every recorder still open.  On a process back end the alphabet has one more operation - a store of that frame
+    with a value that cannot be copied into the shared segment - and only the sequences that use it are generated."""
     f0, t0, t1 = hx(b'f0'), hx(b't0'), hx(b't1')
     alpha = ['S:%s:78:%s:5:0' % (f0, t0), 'S:%s:79:.:5:1' % f0, 'F:%s:0' % f0, 'F:%s:1' % f0, 'A:' + t1, 'R:' + t0, '(', ')', 'X']
+    big = None
+    if backend.startswith('p'):
+        big = 'S:%s:#%dx7a:%s:5:0' % (f0, int(backend[1:]) * 1024 + 1, t1)
+        alpha.append(big)
     cases = []
     for seq in itertools.product(alpha, repeat=length):
+        if big and big not in seq:
+            continue
         depth = 0
         ok = True
         for o in seq:
@@ -815,7 +916,7 @@ def ifc_exhaustive(length):
                 depth -= 1
         if not ok:
             continue
-        cases.append('ifc t 0 %d %s' % (T0, ' '.join(list(seq) + [')'] * depth)))
+        cases.append('ifc %s 0 %d %s' % (backend, T0, ' '.join(list(seq) + [')'] * depth + (['F:%s:1' % f0] if big else []))))
     return cases
 
 
@@ -842,6 +943,7 @@ def gen_cases(ctx):
     if ctx.quick():
         cases += exhaustive_cases('t', [0, 1, 2], 3, True)
         cases += exhaustive_cases('t', [0, 2], 4, False)
+        cases += exhaustive_cases('p512', [0], 3, False)       # includes stores of a value that cannot be copied
     else:
         cases += exhaustive_cases('t', [0, 1, 2], 4, True)
         cases += exhaustive_cases('t', [0, 1, 2], 5, False)
@@ -850,11 +952,12 @@ def gen_cases(ctx):
     for _ in range(ctx.scale(2500, 30000)):
         lim = rng.choice([0, 0, 0, 1, 2, 3, 5, 8, 64, 100000])
         nk = rng.choice([2, 3, 5, 8, 20])
-        be = 't' if rng.random() < 0.8 else rng.choice(['p512', 'p1024', 'p4096'])
+        be = 't' if rng.random() < 0.8 else rng.choice(['p512', 'p512', 'p1024', 'p4096'])
         ln = rng.choice([10, 30, 80, 200])
         if be != 't' and lim > 1000:
             lim = 1000          # the constructor allocates 2 x limit x 16 bytes of the shared segment
-        cases.append('seq %s %d %d %s' % (be, lim, T0, ' '.join(random_seq(rng, nk, rng.choice([1, 3, 6]), ln, lim))))
+        over = int(be[1:]) * 1024 if be != 't' and rng.random() < 0.7 else 0
+        cases.append('seq %s %d %d %s' % (be, lim, T0, ' '.join(random_seq(rng, nk, rng.choice([1, 3, 6]), ln, lim, oversize=over))))
     return cases
 
 
@@ -884,7 +987,10 @@ def classify(case, out):
     n = len(c[4].split()) if len(c) > 4 else 0
     lb = 'limit0' if lim == 0 else 'limit1-2' if lim <= 2 else 'limit3-8' if lim <= 8 else 'limit>8'
     nb = 'len<=5' if n <= 5 else 'len6-40' if n <= 40 else 'len>40'
-    return '%s:%s:%s:%s' % (c[0], 'thread' if c[1] == 't' else 'process', lb, nb)
+    # histories that contain a store which cannot be carried out (value larger than the shared segment) are counted separately
+    fs = ':failed-store' if c[1] != 't' and len(c) > 4 and any(o.startswith('S:') and ('#' in o.split(':')[1] or '#' in o.split(':')[3] or oversized(c[1], o.split(':')[2]))
+                                                                 for o in c[4].split()) else ''
+    return '%s:%s:%s:%s%s' % (c[0], 'thread' if c[1] == 't' else 'process', lb, nb, fs)
 
 
 def run(ctx):
@@ -894,10 +1000,11 @@ def run(ctx):
     res = vlib.coq_props('C07')
     ctx.proof(res)
     ctx.coverage['trusted_base'] = [
-        'Coq 8.16.1 kernel (vm_compute only in the non-vacuity Examples and in the _refuted witness)',
+        'Coq 8.16.1 kernel (vm_compute only in the non-vacuity / regression Examples)',
         'hand-written models coq/C07/Defs.v (mem_cache, src/cache_storage.cpp), coq/C07/Ifc.v (cache_interface, triggers_recorder, '
-        'src/cache_interface.cpp) and coq/C07/HashMap.v (private/hash_map.h); generated leaf: string_hash::update_state (coq/gen/Gen_C07_hash.v, '
-        'lifted textually from the header into a TU because cxx2v does not resolve the nested typedef state_type)',
+        'src/cache_interface.cpp) and coq/C07/HashMap.v (private/hash_map.h); generated leafs: string_hash::update_state (coq/gen/Gen_C07_hash.v, '
+        'lifted textually from the header into a TU because cxx2v does not resolve the nested typedef state_type) and infty / deadtime() '
+        '(coq/gen/Gen_C07_iface.v, lifted from src/cache_interface.cpp with sizeof(time_t)=8 static_asserted, time() as a parameter, throw as return -1)',
         'the map specification of coq/C07/Spec.v (m_step, m_fetch) and coq/C07/MapSpec.v is what the property text means',
         'extraction: ExtrOcamlBasic only, OCaml 4.13.1',
         'harness/C07_cache.cpp + harness/C07_dummy_api.h (interposed time(), fork per process_shared / interface case, socket-less cgi connection '
@@ -907,10 +1014,10 @@ def run(ctx):
         'model through the finite-map interface']
     ctx.assumptions = ['single-threaded use (locks not modelled; C09 covers concurrency)',
                        'theorems refines_spec / live_entry_found: limit 0, no allocation failure, not_enough_memory() false (op_no_fault)',
-                       'theorems refines_spec_limited and the miss/hit clauses: no store whose value copy fails (op_no_drop_before); that case is the '
-                       'known finding stale-after-failed-store',
-                       'for correspondence: not_enough_memory() false (shared segment >= 512 KiB, values <= 100 bytes) except the aimed cases '
-                       'with a value larger than the segment',
+                       'theorems refines_spec_within_limit / live_entry_found_within_limit: limit >= number of distinct stored keys, op_no_fault',
+                       'theorems refines_spec_limited and the miss/hit clauses: none (every limit, fault and pressure pattern)',
+                       'for correspondence: not_enough_memory() false (shared segment >= 512 KiB, values <= 100 bytes); the only allocation failures are '
+                       'those of values / keys / trigger names larger than the whole segment, which fail deterministically',
                        'counters do not wrap (uint64 generation, size_t size); deadtime(): now + seconds does not overflow time_t',
                        'time() is the only clock the cache reads (the harness self-test checks on every run that the library calls the interposed time())',
                        'fetch_page/store_page: the request is a GET with or without Accept-Encoding: gzip, default content type, io_mode normal']
@@ -930,7 +1037,9 @@ def run(ctx):
                             'every operation. Exhaustive: all sequences of a fixed length ending in a fetch over a tiny alphabet (2 keys, triggers from '
                             '{other key, x}, deadlines now-1/now/now+1, rise, remove, clear, clock tick) x limits 0,1,2. Random (seeded): sequences of up to '
                             '200 operations over up to 20 keys and 9 triggers (trigger names overlap key names), limits 0..100000, deadlines around the moving '
-                            'clock plus extreme values, explicit generations, values up to 100 bytes. Aimed: the histories named in the property text. '
+                            'clock plus extreme values, explicit generations, values up to 100 bytes; on process back ends also stores whose value (6%), key or '
+                            'trigger name (4%) is larger than the whole shared segment (std::bad_alloc in the first / second try block of store: key removed / '
+                            'cache cleared). Aimed: the histories named in the property text. '
                             'Mode ifc: sequences through a cppcms::cache_interface(service) - store_frame/fetch_frame with and without notriggers, add_trigger, '
                             'rise, clear, reset, nested triggers_recorder attach/detach; mode ifp: the same through the cache_interface of request contexts '
                             '(socket-less connection) plus next-request, fetch_page and store_page with and without gzip; both compared with the extracted '
@@ -941,16 +1050,22 @@ def run(ctx):
                             'least one miss of a previously stored key; distinct = distinct case lines.')
     ctx.coverage['exhaustive'] = False
     ctx.coverage['exhaustive_parts'] = ['all op sequences of length 3 (quick) / 4 (thorough) over the 27-op alphabet ending in a fetch x limits {0,1,2}',
+                                        'process_shared 512 KiB: all op sequences of length 3 over the 15-op alphabet + 2 stores of a value larger than the '
+                                        'segment, ending in a fetch, limit 0 (thorough: limits 0,1)',
                                         'all op sequences of length 4 (quick) / 5 (thorough) over the 15-op alphabet ending in a fetch',
                                         'all well-nested interface sequences of length 3 (quick) / 4 (thorough) over a 9-op alphabet (store with/without '
-                                        'notriggers, fetch with/without notriggers, add_trigger, rise, recorder open/close, reset)']
+                                        'notriggers, fetch with/without notriggers, add_trigger, rise, recorder open/close, reset)',
+                                        'process_shared 512 KiB: all well-nested interface sequences of length 3 over that alphabet plus a store_frame of a value '
+                                        'larger than the segment that use that store at least once']
     seqs = [c for c in cases if c.startswith('seq ')]
     ifcs = [c for c in cases if c.startswith('ifc ') or c.startswith('ifp ')]
     hms = [c for c in cases if c.startswith('hm ')]
-    vlib.differential(ctx, seqs, exe, mexe, oracle, nontrivial, classify)
+    if seqs:
+        vlib.differential(ctx, seqs, exe, mexe, oracle, nontrivial, classify)
     if ctx.replay_cases is None:
         ifcs += ifc_cases(ctx.rng, ctx.scale(600, 6000), ['t', 'p512'], [0, 0, 2, 64])
         ifcs += ifc_exhaustive(ctx.scale(3, 4))
+        ifcs += ifc_exhaustive(3, 'p512')
     prss = [c for c in cases if c.startswith('prs ')]
     if ctx.replay_cases is None:
         prss += pressure_cases(ctx.rng, ctx.scale(150, 1500))
